@@ -135,7 +135,11 @@ def main(argv=None):
         "assumptions": list(getattr(mod, "ASSUMPTIONS", [])), "wall_s": round(wall, 2),
         "violations": int(sum(v["count"] for v in unexplained)),
     }
-    with open(os.path.join(VERIF, "evidence", f"{pid}.json"), "w") as f:
+    # evidence committed under /verif/evidence must come from /repo itself; runs against a scratch copy
+    # (SHANGRLA_REPO=...) write theirs under .scratch instead
+    evdir = os.path.join(VERIF, "evidence") if env.REPO == "/repo" else os.path.join(VERIF, ".scratch", "evidence-alt")
+    os.makedirs(evdir, exist_ok=True)
+    with open(os.path.join(evdir, f"{pid}.json"), "w") as f:
         json.dump(jsonable(ev), f, indent=1, sort_keys=True)
         f.write("\n")
 
@@ -145,7 +149,7 @@ def main(argv=None):
           f"distinct_nontrivial={len(merged['hashes'])} wall={wall:.1f}s")
     print("  observed: " + ", ".join(f"{k}={v}" for k, v in shown.items()))
     if unexplained:
-        rdir = os.path.join(VERIF, "replay", pid)
+        rdir = os.path.join(VERIF, "replay" if env.REPO == "/repo" else os.path.join(".scratch", "replay-alt"), pid)
         os.makedirs(rdir, exist_ok=True)
         for v in unexplained:
             name = "".join(ch if ch.isalnum() or ch in "._-" else "_" for ch in f"{v['monitor']}-{v['mechanism']}")[:120]
